@@ -69,6 +69,14 @@ CHECKS = {
         note="three parameter vectors + in-place nudges; tolerance 1e-4*scale (float32) / 1e-10*scale (float64); BFS hash reads the private cache slots",
         ref="DESIGN.md 4/C10",
     ),
+    "C11": dict(
+        technique="bounded-exhaustive product exploration of constructor arguments x parameter patterns x dtypes; oracle = mutual consistency of all accessors and both passes with numpy slogdet / matrix identities",
+        text="Every parameterisation (Naive with both initialisations, LU and SVD with identity_init on/off, QR, Householder) is constructed for features 1..4 and Householder counts 1..2F+2 "
+        "(odd, even, beyond the feature count), under the as-constructed and two quasi-random parameter patterns, in float64 and float32; construction must succeed with finite parameters "
+        "unless an explicit argument check rejects it, and weight(), weight_inverse(), logabsdet(), the combined accessors, forward and inverse (matrix() for Householder) must describe one invertible affine map.",
+        note="tolerance 1e-10*cond (float64), 2e-4*cond (float32); random_orthogonal checked for Q^T Q = I",
+        ref="DESIGN.md 4/C11",
+    ),
     "C12": dict(
         technique="bounded-exhaustive enumeration of all ordered batches with repetition (length <= bound) from a fixed pool of distinct rows, on every subject x configuration x pattern; oracle = batch-size-1 evaluation",
         text="For every transform (forward and inverse), distribution and flow (log_prob, transform_to_noise) in evaluation mode, all ordered batches with repetition of "
